@@ -285,6 +285,10 @@ def finish(col: Collector, tier: str, t0: float, extra_coverage: Optional[dict] 
     if viol:
         code = 1
         rdir = os.path.join(VERIF, "replay")
+        if os.environ.get("VERIF_SELFTEST_CHILD"):
+            # runs against scratch copies (self-validation, seeds): nobody replays these
+            import tempfile
+            rdir = os.path.join(tempfile.gettempdir(), "verif_scratch_replay")
         os.makedirs(rdir, exist_ok=True)
         for i in viol:
             h = hashlib.sha1(repr(i.key(prop)).encode()).hexdigest()[:10]
